@@ -63,6 +63,11 @@ MStep(m, e, idx) ==
         [m EXCEPT !.inside = @ \cup {e.h},
                   !.bad = IF foreign # {} THEN Flag(@, "C02", "C02_Exclusive", idx) ELSE @]
     [] e.e = "Exit" -> [m EXCEPT !.inside = @ \ {e.h}]
+    \* after all rounds of all threads nothing is left behind: any object can take the lock, no descriptor is open
+    [] e.e = "FinalProbe" ->
+        [m EXCEPT !.bad = IF ~e.ok THEN Flag(@, "C12", "C12_Residue", idx)
+                          ELSE IF e.fds # 0 THEN Flag(@, "C12", "C12_NoLeak_fd", idx) ELSE @]
+    [] e.e = "SpuriousRelRaised" -> [m EXCEPT !.bad = Flag(@, "C12", "C12_UnheldReleaseNoop", idx)]
     [] e.e = "End" ->
         IF e.status # "ok" THEN [m EXCEPT !.bad = Flag(Flag(@, "C02", "C02_Hang", idx), "C12", "C12_Hang", idx)]
         ELSE m
